@@ -602,7 +602,10 @@ def _r4(ctx):
         if set(vals) == {"lines", "nolines"}:
             v = vals["nolines"]
             test = v.test if isinstance(v, ast.IfExp) and U(v.body) == "True" and U(v.orelse) == "False" else v
-            parts = {U(x) for x in test.values} if isinstance(test, ast.BoolOp) and isinstance(test.op, ast.And) else set()
+            # names that hold the same list as `kernel` (kernel = K / K = kernel) count as the kernel
+            aliases = {U(a.value) for a in C.assigns_to(f.node, "kernel") if isinstance(a, ast.Assign) and isinstance(a.value, ast.Name)}
+            norm = lambda t: re.sub(r"\b(%s)\b" % "|".join(re.escape(x) for x in aliases), "kernel", t) if aliases else t
+            parts = {norm(U(x)) for x in test.values} if isinstance(test, ast.BoolOp) and isinstance(test.op, ast.And) else set()
             eq = C.canon_eq("len(kernel)", "len(parsed_code)")
             good = U(vals["lines"]) == "False" and eq in parts and len(parts) == 2 and bool(
                 parts & {"len(kernel) > 100", "len(parsed_code) > 100"})
@@ -610,6 +613,11 @@ def _r4(ctx):
               f.where(lw[0]) if lw else f.where(), "length_warning definitions: %s" % [U(a.value) for a in lw], f.qname,
               "length warning definition")
     kern = [a for a in C.assigns_to(f.node, "kernel") if C.is_call_to(a.value, "reduce_to_section")]
+    if not kern:
+        # through an alias: K = reduce_to_section(...); kernel = K
+        for a in C.assigns_to(f.node, "kernel"):
+            if isinstance(a, ast.Assign) and isinstance(a.value, ast.Name):
+                kern += [b for b in C.assigns_to(f.node, a.value.id) if C.is_call_to(b.value, "reduce_to_section")]
     ctx.check(bool(kern) and U(kern[0].value.args[0]) == "parsed_code", "R4", "'unmarked' is judged against the parsed file",
               f.where(), "kernel is not reduce_to_section(parsed_code, ...)", f.qname, "unmarked comparison")
     lcdw = None
